@@ -153,6 +153,8 @@ class Interp(StmtMixin):
                 return Val(Tree.op(v.t), "str")
             if is_ref(ty):
                 return Val(Tree.ref(v.t), ty)
+        if ty == "slist" and v.ty == "slist_iter":
+            return Val(v.t, "slist")                  # a fresh iterator over the list, consumed by the callee
         if ty == "slist" and v.ty == "sexp":
             return Val(SExp.items(v.t), "slist")      # guarded by a `cast` obligation (cast_guard)
         if ty == "str" and v.ty == "sexp":
@@ -620,6 +622,10 @@ class Interp(StmtMixin):
                 yield st, Val(x.t - y.t, ty)
             elif isinstance(op, ast.Mult):
                 yield st, Val(x.t * y.t, ty)
+            elif isinstance(op, (ast.Mod, ast.FloorDiv)) and ty == "int" and isinstance(getattr(node, "right", None), ast.Constant) \
+                    and isinstance(node.right.value, int) and node.right.value > 0:
+                # integer % / // by a positive constant: Python's floor semantics coincide with SMT-LIB's (remainder in [0, k))
+                yield st, Val(x.t % y.t if isinstance(op, ast.Mod) else x.t / y.t, "int")
             else:
                 raise Unsupported("numeric operator")
             return
